@@ -549,21 +549,25 @@ def rule_MX(run: Run) -> RuleResult:
         fn = ds.methods.get(name)
         if fn is None:
             raise AnalysisError(f"Dataset.{name} not found")
-        mapping, params, _ = _init_param_attrs(ds)
-        good = False
-        detail = "no Dataset(...) call"
-        other_ok = True
-        for c in astu.calls_in(fn):
-            if astu.short_name(c) == "Dataset":
-                b = _bind_call(c, params)
-                a = b.get(fld)
-                detail = ast.unparse(a) if a is not None else "missing"
-                p0 = astu.param_names(fn)[0]
-                good = a is not None and isinstance(a, ast.Call) and astu.short_name(a) == "mix" and len(a.args) == 2 \
-                    and ast.unparse(a.args[0]) == f"self.{fld}" and ast.unparse(a.args[1]) == p0 and not a.keywords
-                other = "default_options" if fld == "options" else "options"
-                o = b.get(other)
-                other_ok = o is not None and ast.unparse(o) == f"self.{other}"
+        other = "default_options" if fld == "options" else "options"
+        p0 = astu.param_names(fn)[0]
+        dps = normal(analyse_method(Ctx(repo), ds, name))
+        good = bool(dps)
+        other_ok = bool(dps)
+        detail = "no returning path"
+        for dp in dps:
+            r_ = dp.ret
+            if not (isinstance(r_, New) and r_.cls.name == "Dataset"):
+                good = other_ok = False
+                detail = f"returns {r_.key()[:60]}"
+                continue
+            a = r_.attrs.get(fld)
+            detail = a.key() if a is not None else "missing"
+            if detail != f"call:confectioner.mix(Child({fld}),{p0})":
+                good = False
+            o = r_.attrs.get(other)
+            if o is None or o.key() != f"Child({other})":
+                other_ok = False
         res.add(f"labrea.dataset.Dataset.{name}:mixes the new dictionary over the stored one", good, ds.module.relpath, fn.lineno,
                 f"{fld} argument: {detail}; expected mix(self.{fld}, <param>)", nec)
         res.add(f"labrea.dataset.Dataset.{name}:keeps the other dictionary", other_ok, ds.module.relpath, fn.lineno,
